@@ -33,6 +33,26 @@ def model_check(ctx):
                               "TLC: the model of stream_decoder_mt.c violates %s in configuration %s\n%s" % (r.violation, n, r.out[-3000:]),
                               dict(kind="tlc", cfg=n))
 
+def assemble_xz(lz, coders, pieces, check=1, preset=0):
+    """One Stream whose Blocks (with size fields) hold the given pieces, empty ones included: lzma_block_buffer_encode
+    per piece + Index + Stream Header / Footer."""
+    import ctypes as C
+    L = lz.L(); fl = coders.lzma2_filters(preset)
+    sf = lz.StreamFlags(); sf.version = 0; sf.check = check
+    hdr = lz.Buf(12); assert L.lzma_stream_header_encode(C.byref(sf), hdr.addr) == lz.OK
+    body = b""; records = []
+    for d in pieces:
+        b = lz.Block(); b.version = 0; b.check = check; b.filters = C.cast(fl, C.POINTER(lz.Filter))
+        cap = L.lzma_block_buffer_bound(len(d)); ob = lz.Buf(cap); pos = C.c_size_t(0); ib = lz.Buf(max(len(d), 1), d)
+        assert L.lzma_block_buffer_encode(C.byref(b), None, ib.addr, len(d), ob.addr, C.byref(pos), cap) == lz.OK
+        body += ob.data(pos.value); records.append((L.lzma_block_unpadded_size(C.byref(b)), len(d)))
+    idx = coders.build_index(records)
+    isz = L.lzma_index_size(idx); ibuf = lz.Buf(isz); p = C.c_size_t(0)
+    assert L.lzma_index_buffer_encode(idx, ibuf.addr, C.byref(p), isz) == lz.OK
+    L.lzma_index_end(idx, None)
+    sf.backward_size = isz; ftr = lz.Buf(12); assert L.lzma_stream_footer_encode(C.byref(sf), ftr.addr) == lz.OK
+    return hdr.data() + body + ibuf.data() + ftr.data()
+
 def make_files(ctx):
     """Returns list of (name, bytes, layout)."""
     from harness.pydrv import lz, coders
@@ -137,6 +157,15 @@ def make_files(ctx):
     # no integrity check at all (LZMA_TELL_NO_CHECK must say so, once, after the Stream Header)
     nc = coders.encode_xz(text[:50000], preset=0, check=lz.CHECK_NONE, block_size=20000)
     files.append(("nocheck3", nc, mtlib.layout(nc)))
+    # empty Blocks: the queue head changes without a byte being copied (empty first Block, empty Block in the middle),
+    # complete and cut in the middle of the Block that follows the empty one
+    em = assemble_xz(lz, coders, [b"", text[:40000], b"", b"", rnd[:30000], b""])
+    files.append(("empty6", em, mtlib.layout(em)))
+    for nm, bi in (("empty6_trunc_b2", 1), ("empty6_trunc_b5", 4)):
+        le = mtlib.layout(em); b = le["blocks"][bi]
+        cut = b["off"] + b["bh"] + b["insz"] // 2
+        le["filelen"] = cut
+        files.append((nm, em[:cut], le))
     return files
 
 def st_decode(data, flags=0, memlimit=None):
